@@ -2,6 +2,11 @@
 //
 // Every test here FAILS on the unmodified tree: each one demonstrates a defect
 // of the code as it is (see the report).
+//
+// TestC02Defect_JumpVersionAndMarkerSplit builds the split database by hand (all batches before the
+// one that carries the version and the marker, plus the version alone): it shows what the node does
+// on that database and keeps failing after fix d6ad643 - the fix makes that database unreachable
+// (version and marker reach the store in one change set), it does not change what happens on it.
 package core_test
 
 import (
